@@ -48,6 +48,11 @@ impl Rendezvous {
         while val != 0 {
             if val == DT_DEBUG as usize {
                 let mut rend_addr = ffi::read_val::<usize>(proc_pid, &mut addr)?;
+                if rend_addr == 0 {
+                    // DT_DEBUG is filled in by the dynamic linker: static-pie programs have
+                    // the entry but nobody sets it
+                    return Err(RendezvousError::NotFound);
+                }
                 let rendezvous = ffi::read_val::<ffi::r_debug>(proc_pid, &mut rend_addr)?;
                 return Ok(Self {
                     pid: proc_pid,
